@@ -15,6 +15,7 @@ Functions:
 
 from __future__ import annotations
 
+import copy
 from collections.abc import Callable
 from dataclasses import dataclass
 from functools import partial
@@ -68,6 +69,10 @@ def _update_parameters_and_initial_conditions[T](
         Result of the function execution.
 
     """
+    # Every row works on its own copy of the model (as pickling does in parallel
+    # mode): results keep a reference to their model and evaluate lazily, so
+    # sharing one mutable model between rows makes earlier rows see later values
+    model = copy.deepcopy(model)
     pd = pars.to_dict()
     model.update_variables({k: v for k, v in pd.items() if k in model._variables})  # noqa: SLF001
     model.update_parameters({k: v for k, v in pd.items() if k in model._parameters})  # noqa: SLF001
